@@ -772,6 +772,45 @@ def cancel_in_borrow(ctx, n):
                      family='cancel-in-borrow')
 
 
+def cancel_while_served(ctx, n):
+    """directed family: a task suspended in a blocking operation (queue get, channel get, lock entry, flag wait) is
+    cancelled, and IN THE SAME ACTIVATION, after the cancel, the thing it waits for is provided (an item is put, the lock
+    is released, the flag is set).  From the text: the cancellation is raised inside it at its suspension point in that
+    time step - the task ends CANCELLED, its awaiter gets TaskCancelled, and what was provided is still there for others."""
+    from harness import dsl
+    for _ in range(n):
+        what = ctx.rng.choice(['get', 'get', 'flag', 'lock'])
+        d, tok = ctx.rng.choice([1, 2, 3]), ctx.rng.choice([3, 7])
+        if what == 'get':
+            worker = [['get', 0], ['log', 4]]
+            provide = [['put', 0, 77]]
+            after = [['get', 0], ['log', 12]]                      # the item is still there for somebody else
+        elif what == 'flag':
+            worker = [['await', ['flag', 0]], ['log', 4]]
+            provide = [['set_flag', 0, True]]
+            after = [['await', ['flag', 0]], ['log', 12]]
+        else:
+            worker = [['with_lock', 0, [['log', 4], ['await', ['delay', 1]]]], ['log', 5]]
+            provide = []                                           # the canceller holds the lock and leaves its block
+            after = [['with_lock', 0, [['log', 12]]]]
+        wait_t = [['try', [['await_task', 1]], [[['task_cancelled'], [['log', 7]]], [['exception'], [['log', 8]]]], []], ['log', 9]]
+        if what == 'lock':
+            body = [['with_lock', 0, [['do', 1, 1, ['now'], False, worker], ['await', ['delay', d]], ['cancel', 1, tok]]]] + wait_t + after
+        else:
+            body = [['do', 1, 1, ['now'], False, worker], ['await', ['delay', d]], ['cancel', 1, tok]] + provide + wait_t + after
+        sc = dict(start=0, till=None, roots=[[['scope', 1, body], ['log', 11]]], nflags=1, tracked=[0], nlocks=1, nqueues=1,
+                  nchans=1, res=[])
+        tr, info = dsl.run_scenario(sc)
+        ctx.count(sc, nontrivial=True)
+        ctx.bump('family:cancel-while-served')
+        logs = [(e[0], e[2]) for e in tr if len(e) == 3 and e[1] == 1]
+        want = [(d, 7), (d, 9), (d, 12), (d, 11)]
+        if logs != want or info['final'][0] != 90:
+            ctx.fail(sc, 'a task waiting in `%s` was cancelled at %r and, after the cancel in that activation, what it waited for '
+                         'was provided: logged %r, run ended %r; expected %r (cancelled, the thing still available to others)'
+                     % (what, d, logs, info['final'], want), family='cancel-while-served')
+
+
 def prestart_cancel(ctx, n):
     """directed family: the creator awaits a fresh task at once (it subscribes before the task's first activation) and an
     activity already queued in that time step cancels the task before it starts.  From the text: none of the task's
@@ -806,6 +845,7 @@ def run(ctx):
     cancel_nested(ctx, ctx.n(30, 400))
     prestart_cancel(ctx, ctx.n(30, 400))
     cancel_in_borrow(ctx, ctx.n(30, 400))
+    cancel_while_served(ctx, ctx.n(30, 400))
     # second, independent tie: task trees with cancels and status probes on the whole-program machine (whole-trace correspondence)
     from harness import machine_prop
     machine_prop.run(ctx, [('trees', 120, 3000, {})], [])
